@@ -24,6 +24,12 @@ CHECKS = {
         text="Universal theorem xor_oracle_of_clean: any X/CX/MCX circuit that is correct and clean from y=0 and never uses its output qubit as a control is an xor-oracle for both y (flip-commutation lemma by induction over the gate list); validateXor_sound for the per-instance validator over all (x, y); same exact correspondence as C02 on single-bool programs.",
         note=COMPILER_NOTE, design="3/C06", technique="Lean 4 proof (flip commutation, validator soundness); exact model/code correspondence; per-instance exhaustive validation over (x, y)",
     ),
+    "C04": dict(
+        text="Lean 4 theorems for every expression tree and every definition list: each of the five pattern transformers, the plain SympyTransformer traversal and custom_simplify_logic keep the value under every assignment and add no symbol (mutual induction over BExp / List BExp, for every sympy-constructor kernel meeting its spec); merge_expressions keeps the value of every return symbol for lists with shared and re-bound intermediates; apply_cse from the spec of its cse call; every step list built from the seven modelled steps preserves every return symbol, the list of return symbols and the set of free symbols, and the step lists of defaultOptimizer / fastOptimizer (re-extracted from bool_optimizer.py on every run) consist of modelled steps (decide). The full statement is proved for the model with the two listed defects repaired (C04_full), for the code as it is on runs that meet neither (C04_partial); each defect has a Lean witness replayed on the real code. Always-on search: rule-shaped, random and front-end-produced lists through each single step and both whole profiles on the real code, judged by an own evaluator on all assignments.",
+        note="Trusted: Lean kernel (axioms audited per run), the ast-based extractor of the profile step lists, the correspondence harness (model's raw tree passed through sympy's constructors == code's tree, per transformer and per merge sub-step; apply_cse exact). sympy's And/Or/Not/Xor/ITE/Implies constructors, simplify_logic and cse are parameters of the model; their specs are hypotheses of the theorems and are checked on every call observed in a run. Well-formed list = no right-hand side reads a _ret* symbol. Open findings: C04-or2xor-arity, C04-cse-hoist (patches proposed in docs/fixes).",
+        design="3/C04",
+        technique="Lean 4 proof (mutual structural induction, list invariants) + structural model/code correspondence + exhaustive-assignment oracle on generated lists",
+    ),
     "C09": dict(
         text="Lean 4 theorems over all widths (Qint w, Qchar, Qfixed I/F) and all nested types: pattern and value round trips, const = runtime encoding, one-hot amplitude index, interpret_as_qtype inverts concatenated encodings; side conditions discharged on the type tables regenerated from qint.py/qfixed.py/qchar.py on every run; model tied to the code by exhaustive comparison over every shipped type x every bit pattern (w<=12) plus sampled Qint16 and nested types.",
         note="Trusted: Lean kernel (axioms propext, Classical.choice, Quot.sound only, audited per run), the ast-based table extractor, the correspondence harness, CPython float arithmetic being exact on dyadic rationals < 2^11. The theorems are about QV/Model/Types.lean, not the Python text.",
